@@ -36,7 +36,7 @@ impl IpldBlock {
 pub struct RawBytes { pub h: u64 }
 
 pub struct Response { pub exit_code: ExitCode, pub return_data: Option<IpldBlock> }
-pub struct SendError { pub errno: u32 }
+pub struct SendError(pub u32);
 
 /// one record per `send` syscall issued by this activation
 pub struct SendRec {
@@ -49,6 +49,8 @@ pub struct SendRec {
     pub ok: bool,
     /// data returned by the callee (meaningful when ok)
     pub ret: Option<IpldBlock>,
+    /// this actor's persisted state root at the moment of the send (what a re-entrant callee would see)
+    pub root: Cid,
 }
 
 pub enum CallerSet {
@@ -92,6 +94,8 @@ pub struct Rt {
     pub events: Ghost<nat>,
     /// state ids committed by the transactions of THIS activation, in order (not disturbed by later sends)
     pub tx_log: Ghost<Seq<int>>,
+    /// the actor's state root as a CID (used by actors that manage their root themselves: the EVM actor)
+    pub state_root: Cid,
 }
 
 pub uninterp spec fn rt_state<S>(id: int) -> S;
@@ -262,6 +266,17 @@ impl Rt {
             res.is_ok() && !old(self).read_only ==> r.is_ok(),
     { unimplemented!() }
     #[verifier::external_body]
+    pub fn get_state_root(&self) -> (r: Result<Cid, ActorError>)
+        ensures r.is_ok() ==> r->Ok_0 == self.state_root,
+    { unimplemented!() }
+    /// fails in a read-only activation (StateUpdateError::ReadOnly), otherwise replaces the root
+    #[verifier::external_body]
+    pub fn set_state_root(&mut self, root: &Cid) -> (r: Result<(), ActorError>)
+        ensures
+            r.is_ok() ==> !old(self).read_only && *final(self) == (Rt { state_root: *root, ..*old(self) }),
+            r.is_err() ==> *final(self) == *old(self),
+    { unimplemented!() }
+    #[verifier::external_body]
     pub fn create<S>(&mut self, st: &S) -> (r: Result<(), ActorError>)
         ensures
             r.is_ok() ==> rt_state::<S>(final(self).state_id@) == *st
@@ -276,7 +291,7 @@ impl Rt {
         requires !old(self).in_tx@
         ensures
             final(self).sends@ == old(self).sends@.push(SendRec { to: *to, method, params, value: value@, read_only: flags.bits % 2 == 1,
-                ok: r.is_ok() && r->Ok_0.exit_code.value == 0, ret: if r.is_ok() { r->Ok_0.return_data } else { None } }),
+                ok: r.is_ok() && r->Ok_0.exit_code.value == 0, ret: if r.is_ok() { r->Ok_0.return_data } else { None }, root: old(self).state_root }),
             final(self).msg == old(self).msg, final(self).caller_type == old(self).caller_type,
             final(self).caller_namespace == old(self).caller_namespace, final(self).epoch == old(self).epoch,
             final(self).read_only == old(self).read_only, final(self).validated == old(self).validated,
@@ -285,10 +300,10 @@ impl Rt {
             (r.is_ok() && r->Ok_0.exit_code.value == 0) ==> 0 <= value@ <= old(self).balance@
                 && final(self).balance@ >= old(self).balance@ - value@,
             (r.is_ok() && r->Ok_0.exit_code.value == 0 && (method == METHOD_SEND || flags.bits % 2 == 1 || rt_no_reentry(*to, method))) ==>
-                final(self).balance@ == old(self).balance@ - value@ && final(self).state_id == old(self).state_id,
+                final(self).balance@ == old(self).balance@ - value@ && final(self).state_id == old(self).state_id && final(self).state_root == old(self).state_root,
             // a failed send reverts everything the callee did
             !(r.is_ok() && r->Ok_0.exit_code.value == 0) ==> final(self).balance == old(self).balance
-                && final(self).state_id == old(self).state_id && final(self).events == old(self).events,
+                && final(self).state_id == old(self).state_id && final(self).events == old(self).events && final(self).state_root == old(self).state_root,
             // a value transfer or a mutating call cannot succeed from a read-only activation
             (old(self).read_only && (value@ != 0 || flags.bits % 2 == 0) && method != METHOD_SEND) ==> !(r.is_ok() && r->Ok_0.exit_code.value == 0),
     { unimplemented!() }
@@ -298,7 +313,7 @@ impl Rt {
         requires !old(self).in_tx@
         ensures
             final(self).sends@ == old(self).sends@.push(SendRec { to: *to, method, params, value: value@, read_only: false,
-                ok: r.is_ok() && r->Ok_0.exit_code.value == 0, ret: if r.is_ok() { r->Ok_0.return_data } else { None } }),
+                ok: r.is_ok() && r->Ok_0.exit_code.value == 0, ret: if r.is_ok() { r->Ok_0.return_data } else { None }, root: old(self).state_root }),
             final(self).msg == old(self).msg, final(self).caller_type == old(self).caller_type,
             final(self).caller_namespace == old(self).caller_namespace, final(self).epoch == old(self).epoch,
             final(self).read_only == old(self).read_only, final(self).validated == old(self).validated,
@@ -306,9 +321,9 @@ impl Rt {
             (r.is_ok() && r->Ok_0.exit_code.value == 0) ==> 0 <= value@ <= old(self).balance@
                 && final(self).balance@ >= old(self).balance@ - value@,
             (r.is_ok() && r->Ok_0.exit_code.value == 0 && (method == METHOD_SEND || rt_no_reentry(*to, method))) ==>
-                final(self).balance@ == old(self).balance@ - value@ && final(self).state_id == old(self).state_id,
+                final(self).balance@ == old(self).balance@ - value@ && final(self).state_id == old(self).state_id && final(self).state_root == old(self).state_root,
             !(r.is_ok() && r->Ok_0.exit_code.value == 0) ==> final(self).balance == old(self).balance
-                && final(self).state_id == old(self).state_id && final(self).events == old(self).events,
+                && final(self).state_id == old(self).state_id && final(self).events == old(self).events && final(self).state_root == old(self).state_root,
     { unimplemented!() }
     /// emitting an actor event: counted, no other effect
     #[verifier::external_body]
